@@ -19,6 +19,7 @@ import (
 	"encoding/json"
 	"fmt"
 	"math/rand/v2"
+	"strings"
 
 	"github.com/refraction-networking/uquic/internal/ackhandler"
 	"github.com/refraction-networking/uquic/internal/handshake"
@@ -134,6 +135,12 @@ func c09PkBuilder(name string, L int) QUICFrameBuilder {
 		return QUICFrames{QUICFramePing{}, QUICFrameCrypto{0, 0}, QUICFramePadding{Length: 20}}
 	case "QUICFrames three":
 		return QUICFrames{QUICFrameCrypto{2, 0}, QUICFramePing{}, QUICFrameCrypto{0, 1}, QUICFrameCrypto{1, 1}}
+	case "QUICFrames fixed rest-first":
+		return QUICFrames{QUICFramePing{}, QUICFrameCrypto{h, 0}, QUICFramePadding{Length: 9}, QUICFrameCrypto{0, h}}
+	case "QUICFrames fixed explicit":
+		return QUICFrames{QUICFrameCrypto{0, h}, QUICFramePing{}, QUICFrameCrypto{h, 2 * h}}
+	case "QUICFrames fixed explicit-long":
+		return QUICFrames{QUICFrameCrypto{0, h}, QUICFrameCrypto{h, L}, QUICFramePadding{Length: 20}}
 	case "QRF split":
 		return &QUICRandomFrames{MinCRYPTO: 2, MaxCRYPTO: 4, MinPING: 0, MaxPING: 2}
 	case "QRF padded":
@@ -179,6 +186,41 @@ func c09PkBuilder(name string, L int) QUICFrameBuilder {
 	}
 	explore.Must(false, "unknown builder %s", name)
 	return nil
+}
+
+// c09PkFixed are fixed QUICFrames layouts written for ONE slice length (h = max(L/3,1)):
+// "rest-first" tiles every slice of >= h bytes, "explicit" only a slice of exactly 3h bytes,
+// "explicit-long" only one of h+L bytes (its second frame starts inside an L byte ClientHello
+// and ends behind it). The packer applies them to every datagram of the flight and to every
+// retransmission, whatever the length of the slice.
+var c09PkFixed = []string{"QUICFrames fixed rest-first", "QUICFrames fixed explicit", "QUICFrames fixed explicit-long"}
+
+// c09RecQF is a pure pass-through to the real QUICFrames methods that notes the length of
+// every slice the packer hands the layout, so that the harness knows whether the layout tiled
+// all of them (then the flight is judged in full) or met a slice it was not written for (then
+// an error, also a late one, and an incomplete flight are outside the property's quantifier
+// and only the frames that were emitted are judged).
+type c09RecQF struct {
+	fr    QUICFrames
+	seen  []int
+	mixed bool // some slice was not tiled by the layout
+}
+
+func (r *c09RecQF) note(n int) {
+	r.seen = append(r.seen, n)
+	if !c09QFTiles(r.fr, n) {
+		r.mixed = true
+	}
+}
+
+func (r *c09RecQF) Build(cryptoData []byte) ([]byte, error) {
+	r.note(len(cryptoData))
+	return r.fr.Build(cryptoData)
+}
+
+func (r *c09RecQF) BuildForDatagram(idx int, cryptoData []byte, baseOffset uint64) ([]byte, error) {
+	r.note(len(cryptoData))
+	return r.fr.BuildForDatagram(idx, cryptoData, baseOffset)
 }
 
 func c09PkPlans(name string) []InitialPacketPlan {
@@ -268,6 +310,27 @@ func c09PkCases(thorough bool) []c09PkCase {
 			}
 		}
 	}
+	// fixed QUICFrames layouts over flights whose slices they were not written for (appended,
+	// so that the indices of the cases above stay)
+	for _, L := range []int{1, 3, 63, 300, 1162, 2300} {
+		for _, b := range c09PkFixed {
+			for _, pl := range []string{"none", "crypto40", "crypto999+size1250", "size1250", "size600,crypto7"} {
+				if (pl == "crypto40" && L > 300) || (pl == "size600,crypto7" && L > 63) {
+					continue
+				}
+				for _, lose := range []int{-1, 0, 100} {
+					if lose >= 0 && !thorough && pl != "none" && pl != "crypto40" {
+						continue
+					}
+					via := ""
+					if lose == 100 {
+						via = "pack"
+					}
+					cs = append(cs, c09PkCase{Name: fmt.Sprintf("L=%d %s plans=%s lose=%d", L, b, pl, lose), L: L, Builder: b, Plans: pl, Lose: lose, Via: via})
+				}
+			}
+		}
+	}
 	return cs
 }
 
@@ -306,6 +369,7 @@ func c09PkOne(c c09PkCase, acc *c09Acc) *explore.Fail {
 	who := "packer:" + c.Builder
 	var ch, second, ref []byte
 	var spec *QUICSpec
+	var rec *c09RecQF // set for the fixed layouts: which slices the packer handed them
 	if c.Up {
 		sh := c09CHShapes(false)[c.Shape]
 		ch = c09BuildCH(sh.Exts, sh.SID, 3)
@@ -317,7 +381,12 @@ func c09PkOne(c c09PkCase, acc *c09Acc) *explore.Fail {
 		if c.Second > 0 {
 			second = c09Slice(c.L, c.Second) // the stream is c09F throughout (ref == nil)
 		}
-		spec = &QUICSpec{InitialPacketSpec: InitialPacketSpec{FrameBuilder: c09PkBuilder(c.Builder, c.L), InitialPackets: c09PkPlans(c.Plans)}}
+		fb := c09PkBuilder(c.Builder, c.L)
+		if strings.HasPrefix(c.Builder, "QUICFrames fixed") {
+			rec = &c09RecQF{fr: fb.(QUICFrames)}
+			fb = rec
+		}
+		spec = &QUICSpec{InitialPacketSpec: InitialPacketSpec{FrameBuilder: fb, InitialPackets: c09PkPlans(c.Plans)}}
 	}
 	total := len(ch) + len(second)
 	newCover := func(n int) *c09Cover {
@@ -391,14 +460,24 @@ func c09PkOne(c c09PkCase, acc *c09Acc) *explore.Fail {
 		if fail != nil {
 			return fail
 		}
-		if err != nil {
+		if rec != nil && rec.mixed && (err != nil || cov.missing() >= 0) {
+			// the layout met a slice it does not tile: the frames it emitted were judged above;
+			// whether and when such a flight is rejected is outside the property's quantifier
+			what := "no error, flight incomplete"
+			if err != nil {
+				what = "rejected: " + c09ErrClass(err)
+			}
+			acc.out.Add(fmt.Sprintf("%s met a slice it does not tile (slices %v) after %d datagram(s) (no verdict): %s", who, rec.seen[:min(len(rec.seen), 3)], c09Cap(len(sent), 3), what))
+			if err != nil || len(sent) == 0 {
+				return nil
+			}
+		} else if err != nil {
 			if len(sent) > 0 {
 				return explore.Failf(who+":error-after-send", "%s: PackCoalescedPacket failed with %q after %d Initial datagram(s) carrying part of the %d byte ClientHello were already emitted: the configuration was not rejected before anything was sent", c.Name, err, len(sent), len(ch))
 			}
 			acc.out.Add(who + " rejected before anything was sent: " + c09ErrClass(err))
 			return nil
-		}
-		if miss := cov.missing(); miss >= 0 {
+		} else if miss := cov.missing(); miss >= 0 {
 			return explore.Failf(who+":truncated", "%s: the packer has nothing more to send after %d datagram(s), no error, but no CRYPTO frame carried stream offset %d of the %d byte ClientHello", c.Name, len(sent), miss, len(ch))
 		}
 		acc.out.Add(fmt.Sprintf("%s sent dgs=%d %s %s", who, c09Cap(len(sent), 9), szClass(), cov.class()))
@@ -490,7 +569,7 @@ func c09PkOne(c c09PkCase, acc *c09Acc) *explore.Fail {
 }
 
 func c09PackerPart() explore.Part {
-	const rule = "real uPacketPacker (real crypto streams, framer, retransmission queue, sent/received packet handlers; pass-through Initial sealer) driven like the send loop: Write(ClientHello), PackCoalescedPacket until nil; 19 FrameBuilders (nil, QUICFrames, QUICRandomFrames, QUICMultiDatagramFrames, QUICFlightFrames, QUICRandomFlightFrames; valid, invalid and late-invalid) x InitialPackets plans {none, CryptoLength 40, 999+PacketSize 1250, PacketSize 1250, PacketSize 600 + CryptoLength 7} x ClientHello lengths {1,3,63,300,1162,2300}; every builder draw an explorer choice; then one datagram is declared lost and PackPTOProbePacket drained (frames judged, not completeness). HelloRetryRequest scenarios (ClientHello lengths {3,63,300,1162}, plans {none, CryptoLength 40}): after the first flight a second message (1 byte or as long as the first) is written to the same Initial stream and sent (whole stream covered, or no error-free end), the first or last datagram is declared lost before or after that and sent again through PackCoalescedPacket or PackPTOProbePacket; every CRYPTO frame of every datagram, retransmissions included, is judged against the whole stream. Plus the plain quic-go packetPacker with the scrambler on over hand-built ClientHellos. Datagrams are read with an independent long-header + frame reader: every CRYPTO byte at its true offset, whole ClientHello covered when the packer has nothing more to send, or an error before the first datagram"
+	const rule = "real uPacketPacker (real crypto streams, framer, retransmission queue, sent/received packet handlers; pass-through Initial sealer) driven like the send loop: Write(ClientHello), PackCoalescedPacket until nil; 22 FrameBuilders (nil, QUICFrames, QUICRandomFrames, QUICMultiDatagramFrames, QUICFlightFrames, QUICRandomFlightFrames; valid, invalid and late-invalid; three of them fixed QUICFrames layouts written for one slice length - last frame 'the rest', all lengths explicit, second frame ending behind the ClientHello - which the packer applies to every datagram and retransmission of the flight whatever the slice: a recording pass-through notes the slice lengths; when the layout tiled them all the flight is judged in full, otherwise every emitted frame is judged and an error, also a late one, or an incomplete flight is recorded without verdict) x InitialPackets plans {none, CryptoLength 40, 999+PacketSize 1250, PacketSize 1250, PacketSize 600 + CryptoLength 7} x ClientHello lengths {1,3,63,300,1162,2300}; every builder draw an explorer choice; then one datagram is declared lost and PackPTOProbePacket drained (frames judged, not completeness). HelloRetryRequest scenarios (ClientHello lengths {3,63,300,1162}, plans {none, CryptoLength 40}): after the first flight a second message (1 byte or as long as the first) is written to the same Initial stream and sent (whole stream covered, or no error-free end), the first or last datagram is declared lost before or after that and sent again through PackCoalescedPacket or PackPTOProbePacket; every CRYPTO frame of every datagram, retransmissions included, is judged against the whole stream. Plus the plain quic-go packetPacker with the scrambler on over hand-built ClientHellos. Datagrams are read with an independent long-header + frame reader: every CRYPTO byte at its true offset, whole ClientHello covered when the packer has nothing more to send, or an error before the first datagram"
 	return explore.Part{
 		Name: "packer",
 		Run: func(e explore.Env) *explore.Report {
